@@ -12,6 +12,9 @@
 (*   IngestDrain  IngestDrain: first b shard tables merged with overlapping main run    *)
 (*   CompactL1    PlanForRegular: one L1 main table + overlapping L2 tables -> L2       *)
 (*   Reopen       Close + Open: WAL replay; newest memtable active again, older flushed *)
+(*   FailWrite    a commit batch refused by an I/O error (value-log append / rotation,  *)
+(*                WAL write): db_write.go commitWorker -> finishCommitRequests(err);    *)
+(*                valueLog.write rewinds the value log: the batch leaves no trace        *)
 (*                                                                                    *)
 (* Entries carry a version; the plain API writes every entry at MAXV, so recency must  *)
 (* come from the order in which sources are consulted (property C01); the versioned    *)
@@ -26,7 +29,7 @@ CONSTANTS Keys,        \* a set of integers (user keys, ordered)
           Vers,        \* versions that may be written (MAXV = plain API)
           Vals,        \* value tokens
           MaxFid, MaxWrites, MaxImm, MaxL0, MaxHist,
-          Enabled      \* subset of options: "L0ToL0", "Reopen", "GC", "Versioned", "Monotone"
+          Enabled      \* subset of options: "L0ToL0", "Reopen", "GC", "Versioned", "Monotone", "Fault"
 
 MAXV == 1000000
 NONE == "none"
@@ -37,9 +40,10 @@ Data == [Cell -> Vals \cup {NONE, DEL}]
 Empty == [c \in Cell |-> NONE]
 
 VARIABLES mem, memSeg, imm, L0, ing1, main1, main2, nextFid, ref, writes, hist,
-          taint   \* ghost: keys that have ever been in a recorded-deviation witness state
-vars  == <<mem, memSeg, imm, L0, ing1, main1, main2, nextFid, ref, writes, hist, taint>>
-view  == <<mem, memSeg, imm, L0, ing1, main1, main2, nextFid, ref, writes, taint>>
+          taint,  \* ghost: keys that have ever been in a recorded-deviation witness state
+          l0out   \* ghost: fids of L0 tables that are outputs of an L0->L0 compaction
+vars  == <<mem, memSeg, imm, L0, ing1, main1, main2, nextFid, ref, writes, hist, taint, l0out>>
+view  == <<mem, memSeg, imm, L0, ing1, main1, main2, nextFid, ref, writes, taint, l0out>>
 
 Has(d, c)   == d[c] # NONE
 CellsOf(d)  == {c \in Cell : Has(d, c)}
@@ -111,13 +115,19 @@ IngestTie(k) == \E a, b \in ing1 : a # b /\ \E w \in Vers : Has(a.data, <<k, w>>
 \* source does, i.e. versions of k were not written in increasing order across sources.
 VersionInversion(k) == \E a, b \in AllSources : a # b /\ \E w1, w2 \in Vers :
                            w1 < w2 /\ Has(a, <<k, w1>>) /\ Has(b, <<k, w2>>)
-\* Witness 3 (finding C01-l0l0-fid): an L0->L0 output received a fid above a younger memtable's.
-L0FidInversion == "L0ToL0" \in Enabled /\ \E i \in 1..Len(hist) : hist[i].op = "L0ToL0"
+\* Witness 3 (finding C01-l0l0-fid): an L0->L0 output received a fid above a younger memtable's:
+\* the output sits in L0 next to a table with a LOWER fid holding the same internal key. Every L0 table
+\* existing at the time was merged into the output, so the lower-fid table was flushed afterwards (from a
+\* memtable whose segment id is older than the output's fid) and holds the newer write, while the lookup
+\* order (fid descending; the code applies that order when it reloads or next replaces L0 tables) puts
+\* the output first.
+L0FidInversion(k) == \E a, b \in L0 : a.fid \in l0out /\ b.fid < a.fid
+                                       /\ \E w \in Vers : Has(a.data, <<k, w>>) /\ Has(b.data, <<k, w>>)
 
 ReadCorrect(k, v) == \A order \in IngOrders(ing1) : LookupWith(order, k, v) = RefLookup(k, v)
 ReadLatest == \A k \in Keys, v \in Vers : ReadCorrect(k, v)
 \* gating invariant: reads are right except in states exhibiting a recorded deviation witness
-Witness(k) == IngestTie(k) \/ VersionInversion(k) \/ L0FidInversion
+Witness(k) == IngestTie(k) \/ VersionInversion(k) \/ L0FidInversion(k)
 ReadLatestModuloKnown == \A k \in Keys \ taint : \A v \in Vers : ReadCorrect(k, v)
 \* no write is ever lost from storage: the reference entry exists in some source
 NothingLost == \A c \in Cell : (Has(ref, c) /\ c[1] \notin taint) => \E d \in AllSources : d[c] = ref[c]
@@ -133,7 +143,7 @@ MainData(S) == [c \in Cell |-> LET h == {t \in S : Has(t.data, c)} IN
 Log(rec) == hist' = IF Len(hist) < MaxHist THEN Append(hist, rec) ELSE hist
 
 Init == /\ mem = Empty /\ memSeg = 1 /\ imm = <<>> /\ L0 = {} /\ ing1 = {} /\ main1 = {} /\ main2 = {}
-        /\ nextFid = 2 /\ ref = Empty /\ writes = 0 /\ hist = <<>> /\ taint = {}
+        /\ nextFid = 2 /\ ref = Empty /\ writes = 0 /\ hist = <<>> /\ taint = {} /\ l0out = {}
 
 Write(k, w, val) ==
     /\ writes < MaxWrites
@@ -145,6 +155,17 @@ Write(k, w, val) ==
     /\ writes' = writes + 1
     /\ Log([op |-> IF val = DEL THEN "Del" ELSE "Set", k |-> k, ver |-> w, v |-> val])
     /\ UNCHANGED <<memSeg, imm, L0, ing1, main1, main2, nextFid>>
+
+\* A commit batch (one request per key of ks) refused by an I/O error: every request reports the error and
+\* nothing of the batch may ever become visible -- not after value-log GC, flush, compaction or reopen
+\* either. At this abstraction (values, not value-log records) the action changes nothing but the write
+\* budget; what it adds is its PLACEMENT in generated behaviours: the driver arms a one-shot injected
+\* error in the real engine's filesystem for the duration of these writes.
+FailWrite(ks) ==
+    /\ "Fault" \in Enabled /\ writes < MaxWrites /\ ks # {}
+    /\ writes' = writes + 1
+    /\ Log([op |-> "FailSet", ks |-> SetToSortSeq(ks, LAMBDA a, b : a < b), v |-> "x"])
+    /\ UNCHANGED <<mem, memSeg, imm, L0, ing1, main1, main2, nextFid, ref>>
 
 Rotate == /\ CellsOf(mem) # {} /\ Len(imm) < MaxImm /\ nextFid <= MaxFid
           /\ imm' = Append(imm, [seg |-> memSeg, data |-> mem])
@@ -228,9 +249,14 @@ GC == /\ "GC" \in Enabled /\ Log([op |-> "GC"])
       /\ UNCHANGED <<mem, memSeg, imm, L0, ing1, main1, main2, nextFid, ref, writes>>
 
 Step == \/ \E k \in Keys, w \in Vers : \E val \in Vals \cup {DEL} : Write(k, w, val)
-        \/ Rotate \/ Flush \/ MoveL0 \/ L0ToL0 \/ IngestCompact(TRUE) \/ IngestCompact(FALSE)
+        \/ \E ks \in SUBSET Keys : FailWrite(ks)
+        \/ Rotate \/ Flush \/ MoveL0 \/ IngestCompact(TRUE) \/ IngestCompact(FALSE)
         \/ CompactL1 \/ Reopen \/ GC
-Next == Step /\ taint' = taint \cup {k \in Keys : Witness(k)'}
+\* ghosts are maintained here: l0out keeps the fids of L0->L0 outputs while they are in L0
+Ghosts(newOut) == /\ l0out' = {f \in l0out \cup newOut : \E t \in L0' : t.fid = f}
+                  /\ taint' = taint \cup {k \in Keys : Witness(k)'}
+Next == \/ Step /\ Ghosts({})
+        \/ L0ToL0 /\ Ghosts({nextFid})
 Spec == Init /\ [][Next]_vars
 
 \* ----------------------------------------------------------- schedule generation
